@@ -1,4 +1,5 @@
 """C11 — packets chained in one buffer decode exactly as if delivered one per call (DESIGN §4.11)."""
+import re
 from .common import *
 from . import c02
 from .cache import CacheAccess, uses_of_local
@@ -116,6 +117,8 @@ def run(ctx, env):
         ty = body.local_ty(l)
         while ty.startswith("std::option::Option<") and ty.endswith(">"):
             ty = ty[len("std::option::Option<"):-1]     # `Option<Vec<u8>>` leftover buffer: still only the unparsed input
+        if re.match(r"^std::borrow::Cow<'\w+, \[u8\]>$", ty):
+            ty = "&[u8]"                                   # `Cow<[u8]>`: the unparsed input, borrowed or owned
         carried = bool(outside) or muts
         # locals defined only inside the loop and consumed there are per-iteration temporaries
         if not carried and ty not in allowed_ty:
